@@ -8,7 +8,7 @@ objects and state classes, real `Settings` / `EventBus`) against scripted collab
   succeed / fail / hang (incl. the file connection of a download: `deliver_file_connection`, offset, file data).  Everything is logged in order (`rig.log`):
       ('connect', k, att, cls)      a peer connection is requested on behalf of transfer k
       ('frame', k, att, cls)        a protocol message about transfer k left
-      ('fileconn', k, att)          a file connection is requested for transfer k
+      ('fileconn', k, att, task)    a file connection is requested for transfer k
       ('state', k, old, new)        TransferStateListener event
       ('cycle', [k...], info)       manage_transfers ran and created tasks for these transfers
   Used by props/c05.py and props/c06.py.
@@ -175,6 +175,8 @@ class FakeConn:
         self.port = 2234
         self.queued: list = []
         self.closed = False
+        self.connection_type = 'P'
+        self.ticket = None
 
     def _ctx(self):
         if self.k is not None:
@@ -209,6 +211,9 @@ class FakeConn:
             rig.log.append(('frame', k, att, cls, _sender()))
             return
         rig.log.append(('frame', k, None, cls, _sender(), 'peer-conn'))
+
+    async def receive_transfer_ticket(self):
+        return self.ticket
 
     async def receive_transfer_offset(self):
         from aioslsk.exceptions import ConnectionReadError
@@ -287,6 +292,9 @@ class StubNetwork:
     def create_peer_response_future(self, peer, message_class, fields=None):
         rig = self.rig
         ticket = (fields or {}).get('ticket')
+        if ticket not in rig.by_ticket:
+            # a response nobody scripted (e.g. PeerPlaceInQueueReply): it never arrives, the caller's own timeout ends the wait
+            return rig.loop.create_future()
         k, att = rig.by_ticket[ticket]
         fut = rig.loop.create_future()
         g = rig.gate(k, att)
@@ -317,7 +325,7 @@ class StubNetwork:
         from aioslsk.exceptions import PeerConnectionError
         rig = self.rig
         k, att = rig.ctx_of_task()
-        rig.log.append(('fileconn', k, att))
+        rig.log.append(('fileconn', k, att, _sender()))
         out = await rig.gate(k, att).wait('conn')
         if out != 'ok':
             raise PeerConnectionError('scripted')
@@ -356,6 +364,7 @@ class Rig:
         self.unshared: set = set()                 # remote paths the shares stub no longer finds (opt-in, default none)
         self.aux_gates = aux_gates                 # other messages naming a transfer's file are gates too (opt-in)
         self.share_delay = share_delay             # loop iterations find_shared_item / get_shared_item take (opt-in)
+        self._deliveries: list = []                # strong refs to the event emissions of deliver_file_connection
         self.aux_count: dict[int, int] = {}        # k -> number of aux messages begun
         self.aux_pending: dict[int, list] = {}     # k -> [(att, cls)] aux messages whose connection is still pending
         # downloads are written below a per-process directory that every run starts (and ends) without
@@ -376,10 +385,15 @@ class Rig:
         fn = getattr(message, 'filename', None)
         if fn is None:
             return None
+        first = None
         for i, t in enumerate(self.transfers):
             if t.username == username and t.remote_path == fn:
-                return i
-        return None
+                # a file that was removed and queued again has two entries: the message is about the one in the list
+                if any(x is t for x in self.mgr._transfers):
+                    return i
+                if first is None:
+                    first = i
+        return first
 
     def begin_attempt(self, k, kind, ticket=None) -> int:
         att = self.attempts.get(k, 0) + 1
@@ -417,18 +431,20 @@ class Rig:
         shutil.rmtree(self.download_dir, ignore_errors=True)
 
     def deliver_file_connection(self, k) -> bool:
-        """The uploader opens the file connection for the current initialize-download attempt of download k and its
-        ticket arrives (what `_on_peer_initialized` does with it): the attempt's future gets the connection."""
+        """The uploader opens the file connection for the current initialize-download attempt of download k and sends the
+        ticket: a `PeerInitializedEvent` for a file connection the peer opened, emitted on the event bus like the network
+        does (the manager reads the ticket from it and hands the connection to the attempt that waits for it).  The
+        event is handled in the next loop iteration."""
         att = self.attempts.get(k)
         ticket = self.attempt_ticket.get((k, att))
-        futures = self.mgr._file_connection_futures
-        # keyed by (uploader, ticket) since d97c791, by the ticket alone before
-        fut = futures.get((self.transfers[k].username, ticket))
-        if fut is None:
-            fut = futures.get(ticket)
-        if fut is None or fut.done():
+        if ticket is None:
             return False
-        fut.set_result(FakeConn(self, self.transfers[k].username, k, att))
+        from aioslsk.events import PeerInitializedEvent
+        from aioslsk.network.connection import PeerConnectionType
+        conn = FakeConn(self, self.transfers[k].username, k, att)
+        conn.connection_type = PeerConnectionType.FILE
+        conn.ticket = ticket
+        self._deliveries.append(asyncio.ensure_future(self.bus.emit(PeerInitializedEvent(conn, requested=False))))
         return True
 
     def ctx_of_task(self):
